@@ -414,17 +414,17 @@ func rootcall(c *restli.Client, op, id string) string {
 		}
 		out += rooterrString(err)
 	case "update-long": // tunnelled (query longer than the threshold) WITH a body: multipart/mixed
-		out = rooterrString(restli.Update(c, ctx, rp("/items/"+id), &rootent{Key: id}, rootlongQuery(id), nil))
+		out = rooterrString(restli.Update(c, ctx, rp("/items/"+id), &rootent{Key: id}, rootlongQuery(id), rootreadOnly))
 	case "partial-update-long":
 		out = rooterrString(restli.PartialUpdate(c, ctx, rp("/items/"+id), &rootent{Key: id}, rootlongQuery(id), nil))
 	case "create-long":
-		ce, err := restli.Create[string](c, ctx, rp("/items"), &rootent{Key: id}, rootlongQuery(id), nil)
+		ce, err := restli.Create[string](c, ctx, rp("/items"), &rootent{Key: id}, rootlongQuery(id), rootreadOnly)
 		if ce != nil {
 			out = fmt.Sprintf("id=%s status=%d location=%s ", ce.Id, ce.Status, rootptr(ce.Location))
 		}
 		out += rooterrString(err)
 	case "update":
-		out = rooterrString(restli.Update(c, ctx, rp("/items/"+id), &rootent{Key: id}, restli.QueryParamsString("x="+id), nil))
+		out = rooterrString(restli.Update(c, ctx, rp("/items/"+id), &rootent{Key: id}, restli.QueryParamsString("x="+id), rootreadOnly))
 	case "delete":
 		out = rooterrString(restli.Delete(c, ctx, rp("/items/"+id), nil))
 	case "find", "find-long":
@@ -493,13 +493,13 @@ func rootbuildReq(c *restli.Client, op, id string) (*http.Request, error) {
 	rp := func(s string) restli.ResourcePathString { return restli.ResourcePathString(s) }
 	switch op {
 	case "b-update-long":
-		return restli.NewJsonRequest(c, ctx, rp("/items/"+id), rootlongQuery(id), http.MethodPut, restli.Method_update, &rootent{Key: id}, nil)
+		return restli.NewJsonRequest(c, ctx, rp("/items/"+id), rootlongQuery(id), http.MethodPut, restli.Method_update, &rootent{Key: id}, rootreadOnly)
 	case "b-partial-update-long":
 		return restli.NewJsonRequest(c, ctx, rp("/items/"+id), rootlongQuery(id), http.MethodPost, restli.Method_partial_update, &rootent{Key: id}, nil)
 	case "b-create-long":
 		return restli.NewCreateRequest(c, ctx, rp("/items"), rootlongQuery(id), restli.Method_create, &rootent{Key: id}, rootreadOnly)
 	case "b-update":
-		return restli.NewJsonRequest(c, ctx, rp("/items/"+id), restli.QueryParamsString("x="+id), http.MethodPut, restli.Method_update, &rootent{Key: id}, nil)
+		return restli.NewJsonRequest(c, ctx, rp("/items/"+id), restli.QueryParamsString("x="+id), http.MethodPut, restli.Method_update, &rootent{Key: id}, rootreadOnly)
 	case "b-get-long":
 		return restli.NewGetRequest(c, ctx, rp("/items/"+id), rootlongQuery(id), restli.Method_get)
 	case "b-delete":
